@@ -45,6 +45,10 @@ std::string in_desc(const Input &in) {
   return j.done();
 }
 
+bytes genuine_from_reference(const Base &b) {
+  return ref::wenc_reference(b.P, b.ep.key, b.ep.cmode, b.ep.hmode, b.ep.seed.data(), b.ep.seed.size(), b.ep.T, VH_CHUNK);
+}
+
 std::vector<Base> make_bases(Ctx &cx, bool all) {
   const size_t c = VH_CHUNK;
   size_t ns[] = {0, 1, 15, 16, 17, c - 1, c, 3 * c + 5};
@@ -68,8 +72,8 @@ std::vector<Base> make_bases(Ctx &cx, bool all) {
           b.pseed = r.next();
           b.P = ops::gen_plain(b.n, b.pseed);
           ops::Result e = ops::encrypt(b.P, b.ep);
-          if (!e.ret) { fprintf(stderr, "harness: could not create a genuine file\n"); exit(2); }
-          b.F = e.out;
+          b.F = e.ret ? e.out : genuine_from_reference(b); // encryption reporting failure is C01/C02's business
+          if (!e.ret) cx.rep.count("genuine_files_taken_from_the_reference_because_encrypt_reported_failure");
           out.push_back(b);
         }
   // always present: files whose authenticated region is longer than the hash refill buffer and not a multiple of
@@ -84,8 +88,8 @@ std::vector<Base> make_bases(Ctx &cx, bool all) {
     b.pseed = r.next();
     b.P = ops::gen_plain(b.n, b.pseed);
     ops::Result e = ops::encrypt(b.P, b.ep);
-    if (!e.ret) { fprintf(stderr, "harness: could not create a genuine file\n"); exit(2); }
-    b.F = e.out;
+    b.F = e.ret ? e.out : genuine_from_reference(b); // encryption reporting failure is C01/C02's business
+    if (!e.ret) cx.rep.count("genuine_files_taken_from_the_reference_because_encrypt_reported_failure");
     out.push_back(b);
   }
   // always present: keys with special shapes (zero bytes at various positions, the project's own test key)
@@ -104,8 +108,8 @@ std::vector<Base> make_bases(Ctx &cx, bool all) {
     b.pseed = r.next();
     b.P = ops::gen_plain(b.n, b.pseed);
     ops::Result e = ops::encrypt(b.P, b.ep);
-    if (!e.ret) { fprintf(stderr, "harness: could not create a genuine file\n"); exit(2); }
-    b.F = e.out;
+    b.F = e.ret ? e.out : genuine_from_reference(b); // encryption reporting failure is C01/C02's business
+    if (!e.ret) cx.rep.count("genuine_files_taken_from_the_reference_because_encrypt_reported_failure");
     out.push_back(b);
   }
   return out;
